@@ -129,6 +129,17 @@ def gen_stmt(rng):
             e1, e2 = rng.choice(["a.x", "a.x + a.y", "a.x * 2"]), rng.choice(["b.x", "b.x + b.z", "b.x * 2"])
         jt = rng.choice(["join", "join", "left join", "right join", "full join"])
         extra = rng.choice(["", "", "", " and a.y < b.z", " and a.y = b.z"])
+        if rng.random() < 0.4:
+            # two to four equality conjuncts (the 2- and 3-key hash-join rules); any of them may mix both inputs on either side
+            def eq():
+                r = rng.random()
+                l, rr = rng.choice(["a.x", "a.y", "a.x + a.y"]), rng.choice(["b.x", "b.z", "b.x + b.z"])
+                m = rng.choice(["a.y + b.z", "a.x * b.x", "b.z - a.y", "a.x + b.x"])
+                return (f"{l} = {rr}" if r < 0.45 else f"{rr} = {l}" if r < 0.6 else f"{l} = {m}" if r < 0.75 else f"{m} = {rr}" if r < 0.85
+                        else f"{rr} = {m}" if r < 0.95 else f"{m} = {l}")
+            conj = [eq() for _ in range(rng.randint(2, 4))]
+            e1, e2 = conj[0].split(" = ")
+            extra = "".join(" and " + c for c in conj[1:])
         shapes = [
             (f"select a.x, b.z from a {jt} b on {e1} = {e2}{extra}", {"join-mixed-keys"}),
             (f"select count(*) from a {jt} b on {e1} = {e2}{extra}", {"join-mixed-keys"}),
